@@ -34,7 +34,8 @@ def check(k, seed):
     stems = ['plot', 'LSZH_2024.03.15_12.50', 'diag_v2.1', 'run.A', 'plot']
     for ci, (upto, show_ceilos) in enumerate(combos):
         rc0 = dict(matplotlib.rcParams)
-        fmts = ['png'] if k % 2 else ['png', 'pdf']
+        # every format matplotlib can write here (the raster ones other than png go through Pillow)
+        fmts = [['png'], ['png', 'pdf'], ['png', 'jpg'], ['svg', 'eps'], ['tiff'], ['pdf', 'webp']][(k + ci) % 6] if k % 3 else (['png'] if k % 2 else ['png', 'pdf'])
         base = stems[(k + ci) % len(stems)]
         with tempfile.TemporaryDirectory() as td:
             stem = os.path.join(td, base)
